@@ -131,7 +131,8 @@ Record pre := mkPre {
   p_fix_items : list fixitem;
   p_fix_parity : list (N * N);   (* (level, position) of parity blocks found wrong on fully valid stripes *)
   p_fix_resize : list bool;      (* per level: parity_chsize/parity_truncate change the file size *)
-  p_touch : list (N * N);        (* (disk, path) of recorded files with recorded nanoseconds = 0 that can be opened *)
+  p_touch : list (N * N);        (* (disk, path) of recorded files with recorded nanoseconds = 0 that can be opened and whose
+                                    on-disk nanoseconds are 0 or invalid (touch.c:100-105, after fix c4adc84) *)
   p_pool_conf : bool;
   p_pool_changes : list N        (* pool entries created or removed *)
 }.
